@@ -47,6 +47,44 @@ CHECKS = {
         technique=TECH + 'step histories with reject_step and assertion faults at scheduler-chosen '
                   'cycles; channel-agreement oracles over the recorded history',
         design='5 C15'),
+    'C03': dict(
+        level='exploration',
+        text='Seeded search: random word-level designs (all ops, reset values, memories, ROMs) '
+             'synthesized under both merge_io_vectors settings, both update_working_block settings '
+             'and different working blocks, with set-iteration order and statement order chosen by '
+             'the scheduler; structure, map keys (identity with the original objects), RefSim '
+             'equivalence from reset and from explicit state, and the unchanged testbench on '
+             'pyrtl.Simulation(block=result) are checked per run. Sampling, not proof.',
+        note='Trusted: RefSim on both sides; widths limited to 1..8 (rarely to 24) because '
+             'synthesis is O(n^2) nets.',
+        technique=TECH + 'seeded pass-visit order (hash seam) and working-block state; replica '
+                  '(synthesized) vs original over cycles against a reference model',
+        design='5 C03'),
+    'C04': dict(
+        level='exploration',
+        text='Seeded search: blocks of four kinds (word-level, synthesized, nand, and-inverter) '
+             'seeded with constants, duplicate and swapped sub-expressions, dead logic and '
+             'constant-fed registers; sequences of 1..4 optimisation passes applied in place under '
+             'scheduler-chosen set orders; after every pass I/O sets, sanity_check and RefSim '
+             'Output equivalence (eliminated registers start at their constant) are checked. '
+             'Sampling, not proof.',
+        note='Trusted: RefSim; the eliminated-register constant is read off a pre-run of the block '
+             'as given; an unsilenced constant_propagation refusing word-level ops is a refusal.',
+        technique=TECH + 'seeded visit order of set-based passes, pass-sequence histories, '
+                  'before/after reference-model equivalence',
+        design='5 C04'),
+    'C09': dict(
+        level='exploration',
+        text='Seeded search: sequences of 1..4 lowering/restructuring passes on word-level and '
+             'post-synthesis blocks (Outputs fed by registers, memories, Inputs, Consts; repeated '
+             'select indices; 1..5-way concats; one wire in several argument positions) under '
+             'scheduler-chosen set orders; after every pass sanity_check, I/O, register set, '
+             'RefSim equivalence and the stated postcondition are checked. Sampling, not proof.',
+        note='Trusted: RefSim and the postcondition checkers; direct_connect_outputs is held to '
+             'its docstring contract evaluated on the block as given.',
+        technique=TECH + 'seeded net_transform visit order, pass-ordering histories, '
+                  'reference-model equivalence + postcondition oracle',
+        design='5 C09'),
 }
 
 NOT_APPLICABLE = {
